@@ -430,7 +430,7 @@ class World:
             coro = self._cage_body(spec)
         elif cage == "child":
             coro = self._cage_child(spec)
-        elif spec.get("wraps"):
+        elif spec.get("wraps") and spec["wraps"] in self.tasks:
             coro = self.tasks[spec["wraps"]]     # the payload is another Task: `scope.do(task)`
         else:
             coro = self.actor(spec)
